@@ -13,15 +13,10 @@ CR = "datacake-crdt/src/orswot.rs"
 TS = "datacake-crdt/src/timestamp.rs"
 
 # --- C03
-mut("C03", "versions-merge-min", CR,
-    "                        if &ts < entry.get() {\n                            continue;\n                        }\n",
-    "                        if &ts > entry.get() {\n                            continue;\n                        }\n")
 mut("C03", "merge-tombstone-no-max", CR, "(*v) = cmp::max(*v, ts);", "(*v) = ts;")
 mut("C03", "merge-own-entry-not-max", CR, "timestamp = cmp::max(timestamp, existing_ts);", "timestamp = existing_ts;")
-mut("C03", "merge-unsorted-log", CR, "entries_log.sort_by_key(|v| v.1);", "entries_log.sort_by_key(|v| v.0);")
 # --- C04
-mut("C04", "F1-reverted", CR, "return !self.is_ts_before_last_observed_event(ts);", "return false;")
-mut("C04", "delete-wins-tie", CR, "if ts <= existing_ts {", "if ts < existing_ts {")
+mut("C04", "F1-reverted", CR, "return !self.is_ts_before_last_observed_event(ts);", "return false;", also=("C01", "C02", "C05"))
 mut("C04", "insert-ignores-tombstone-order", CR, "            if ts < deleted_ts {\n                self.dead.insert(k, deleted_ts);\n                return has_set;\n            }\n        }\n\n        self.entries\n",
     "            if ts.counter() < deleted_ts.counter() {\n                self.dead.insert(k, deleted_ts);\n                return has_set;\n            }\n        }\n\n        self.entries\n")
 mut("C04", "will-apply-ignores-tombstone", CR, "        if let Some(entry) = self.dead.get(&key) {\n            return entry < &ts;\n        }\n\n        true", "        true")
@@ -40,6 +35,57 @@ mut("C10", "frac-shift-23", TS, "(fractional << 24)", "(fractional << 23)")
 mut("C10", "display-counter-decimal", TS, '"{}-{:0>4}-{:0>4X}-{:0>4}"', '"{}-{:0>4}-{:0>4}-{:0>4}"')
 mut("C10", "F2-reverted", TS, "        if seconds > TIMESTAMP_MAX {\n            return Err(InvalidFormat);\n        }\n", "")
 mut("C10", "node-accessor-7bit", TS, "(self.0 & 0xFF).try_into().unwrap_or_default()", "(self.0 & 0x7F).try_into().unwrap_or_default()")
+
+
+AC = "datacake-eventual-consistency/src/keyspace/actor.rs"
+GR = "datacake-eventual-consistency/src/keyspace/group.rs"
+PO = "datacake-eventual-consistency/src/replication/poller.rs"
+CI = "datacake-eventual-consistency/src/rpc/services/consistency_impl.rs"
+RI = "datacake-eventual-consistency/src/rpc/services/replication_impl.rs"
+EL = "datacake-eventual-consistency/src/lib.rs"
+# --- C03 (more)
+mut("C03", "merge-drops-newer-own-entry", CR, "            if let Some(deleted) = self.dead.remove(&key) {\n                if ts < deleted {", "            if let Some(deleted) = self.dead.remove(&key) {\n                if ts > deleted {")
+# --- C08 local
+mut("C08", "purge-condition-negated", CR, "            if !self.versions.is_ts_before_last_observed_event(stamp) {\n                self.dead.insert(k, stamp);", "            if self.versions.is_ts_before_last_observed_event(stamp) {\n                self.dead.insert(k, stamp);")
+mut("C08", "safe-stamp-max-over-sources", CR, "            .min();\n\n        if let Some(min) = min {", "            .max();\n\n        if let Some(min) = min {")
+mut("C08", "no-forgiveness", CR, "min.datacake_timestamp().saturating_sub(FORGIVENESS_PERIOD)", "min.datacake_timestamp()", also=("C04",))
+mut("C08", "purge-also-drops-entries", CR, "        let mut deleted_keys = vec![];\n        for (k, stamp) in mem::take(&mut self.dead) {", "        let mut deleted_keys = vec![];\n        self.entries.pop_first();\n        for (k, stamp) in mem::take(&mut self.dead) {")
+# --- C01
+mut("C01", "poller-skips-removals", PO, "                change.removed,\n                change.modified,", "                Default::default(),\n                change.modified,")
+mut("C01", "poller-skips-modified", PO, "                change.removed,\n                change.modified,", "                change.removed,\n                Default::default(),")
+mut("C01", "diff-direction-swapped", PO, "        modified: modified\n            .into_iter()", "        modified: removed.clone()\n            .into_iter()")
+mut("C08", "repair-uses-consistency-source", PO, "            source: READ_REPAIR_SOURCE_ID,\n            docs: DocVec::from_vec(docs),", "            source: 0,\n            docs: DocVec::from_vec(docs),")
+mut("C01", "last-updated-not-bumped-on-del", AC, "        self.state\n            .delete_with_source(msg.source, msg.doc.id, msg.doc.last_updated);\n        self.inc_change_timestamp().await;", "        self.state\n            .delete_with_source(msg.source, msg.doc.id, msg.doc.last_updated);")
+# --- C02
+mut("C02", "F11-reverted-set", AC, "        docs.retain(|doc| seen_ids.insert(doc.id()));", "        docs.retain(|doc| seen_ids.insert(doc.id()) || true);")
+mut("C02", "bulk-error-folds-all", AC, "                .filter(|entry| successful_ids.contains(&entry.0));\n\n            for (doc_id, ts) in successful_entries {\n                self.state.insert_with_source", "                .filter(|entry| successful_ids.contains(&entry.0) || true);\n\n            for (doc_id, ts) in successful_entries {\n                self.state.insert_with_source")
+mut("C02", "set-before-store", AC, "        self.storage\n            .put_with_ctx(&self.name, msg.doc, msg.ctx.as_ref())\n            .await?;\n", "        self.state.insert_with_source(msg.source, doc_id, ts);\n        self.storage\n            .put_with_ctx(&self.name, msg.doc, msg.ctx.as_ref())\n            .await?;\n")
+mut("C02", "purge-failure-not-readded", AC, "            self.state.add_raw_tombstones(tombstones);\n", "            drop::<StateChanges>(tombstones);\n")
+mut("C02", "del-skips-will-apply", AC, "        if !self.state.will_apply(msg.doc.id, msg.doc.last_updated) {\n            return Ok(());\n        }\n\n        self.storage\n            .mark_as_tombstone", "        self.storage\n            .mark_as_tombstone")
+# --- C07
+mut("C07", "load-ignores-tombstone-flag", GR, "                if tombstone {\n                    state.delete(key, ts);", "                if tombstone && false {\n                    state.delete(key, ts);")
+mut("C07", "load-first-keyspace-only", GR, "        for keyspace in self.storage.get_keyspace_list().await? {", "        for keyspace in self.storage.get_keyspace_list().await?.into_iter().take(1) {")
+mut("C07", "load-drops-newest-entry", GR, "            entries.sort_by_key(|entry| entry.1);\n", "            entries.sort_by_key(|entry| entry.1);\n            entries.pop();\n")
+# --- C18
+mut("C18", "F8-reverted", GR, "            if let Some(existing) = guard.get(&name) {\n                return existing.clone();\n            }\n", "")
+mut("C01", "fetch-docs-stale-snapshot", RI, "        let documents = self\n            .group\n            .storage()\n            .multi_get(&msg.keyspace, msg.doc_ids.into_iter())", "        let documents = self\n            .group\n            .storage()\n            .multi_get(&msg.keyspace, msg.doc_ids.into_iter().skip(1))")
+mut("C01", "get-state-wrong-keyspace", RI, "        let keyspace = self.group.get_or_create_keyspace(&msg.keyspace).await;\n\n        let last_updated", "        let keyspace = self.group.get_or_create_keyspace(\"ks0\").await;\n\n        let last_updated")
+mut("C06", "put-many-direct-message-skips-first-doc", EL, "        let factory = |node| {\n            let clock = self.node.clock().clone();\n            let keyspace = keyspace.name().to_string();\n            let documents = docs.clone();", "        let factory = |node| {\n            let clock = self.node.clock().clone();\n            let keyspace = keyspace.name().to_string();\n            let documents: crate::core::DocVec<Document> = docs.iter().skip(1).cloned().collect();")
+
+
+NS = "datacake-node/src/nodes_selector.rs"
+# --- C06
+mut("C06", "success-only-if-zero", EL, "    if num_success != num_required {", "    if num_success == 0 && num_required > 0 {")
+mut("C06", "quorum-one-less", NS, "                let majority = total_nodes / 2;\n", "                let majority = (total_nodes / 2).saturating_sub(1);\n", also=("C15",))
+mut("C06", "handler-replies-before-write", CI, "        let keyspace = self.group.get_or_create_keyspace(&payload.keyspace).await;\n        try_send!(keyspace, msg)?;\n        Ok(self.group.clock().get_time().await)", "        let keyspace = self.group.get_or_create_keyspace(&payload.keyspace).await;\n        tokio::spawn(async move { let _ = keyspace.send(msg).await; });\n        Ok(self.group.clock().get_time().await)")
+mut("C06", "del-many-no-local-write", EL, "        let keyspace = self.group.get_or_create_keyspace(keyspace).await;\n        let msg = MultiDel {\n            source: CONSISTENCY_SOURCE_ID,\n            docs: docs.clone(),\n            _marker: PhantomData::<S>::default(),\n        };\n        keyspace.send(msg).await?;", "        let keyspace = self.group.get_or_create_keyspace(keyspace).await;")
+mut("C06", "responses-off-by-one", EL, "                responses: num_success,", "                responses: num_success + 1,")
+mut("C06", "all-excludes-last-node", NS, "            Consistency::All => selected_nodes.extend(\n                data_centers\n                    .values()\n                    .flat_map(|cycler| cycler.nodes.clone())\n                    .filter(|addr| addr != &local_node),\n            ),", "            Consistency::All => selected_nodes.extend(\n                data_centers\n                    .values()\n                    .flat_map(|cycler| cycler.nodes.clone())\n                    .filter(|addr| addr != &local_node)\n                    .skip(1),\n            ),", also=("C15",))
+# --- C15
+mut("C15", "all-without-local-filter", NS, "                    .flat_map(|cycler| cycler.nodes.clone())\n                    .filter(|addr| addr != &local_node),", "                    .flat_map(|cycler| cycler.nodes.clone()),")
+mut("C15", "F5b-reverted", NS, "    if selected_nodes.len() < n {\n        let remaining", "    if selected_nodes.len() < n && false {\n        let remaining")
+mut("C15", "each-quorum-local-dc-like-remote", NS, "                    let majority = if name == local_dc {", "                    let majority = if name != local_dc {")
+mut("C15", "n-nodes-may-duplicate", NS, "                if node == local_node || selected_nodes.contains(&node) {\n                    continue;\n                }", "                if node == local_node {\n                    continue;\n                }")
 
 def sh(cmd, **kw):
     return subprocess.run(cmd, shell=True, capture_output=True, text=True, **kw)
